@@ -1,6 +1,6 @@
 (* Props/C05.v — property theorems only.  C05: the design is not oversized. *)
 From Coq Require Import ZArith QArith Qabs List.
-From GHE Require Import Base.QUtil gen.Src Model.Search Proof.SearchP.
+From GHE Require Import Base.QUtil gen.Src Model.Search Proof.SearchP Proof.WiringP.
 Import ListNotations.
 Open Scope Z_scope.
 
@@ -40,6 +40,14 @@ Print Assumptions C05_bisect_adjacent.
 Theorem C05_max_iter_from_source : Qnat max_iter_1d = 15%nat.
 Proof. exact max_iter_1d_val. Qed.
 Print Assumptions C05_max_iter_from_source.
+
+(* the call sites in design.py (read on every run): no design class passes its search a tolerance or an iteration cap *)
+Theorem C05_no_design_overrides_the_search_limits :
+  forallb (fun l => negb (overrides l))
+    [wiring_nearsquare_search; wiring_rectangle_search; wiring_birectangle_search;
+     wiring_bizoned_search; wiring_constrained_search; wiring_rowwise_search] = true.
+Proof. exact no_search_overrides. Qed.
+Print Assumptions C05_no_design_overrides_the_search_limits.
 
 (* (a) the returned height: brentq's answer when the end signs differ, otherwise the bracket end *)
 Theorem C05_root :
